@@ -16,6 +16,8 @@ package redisemu
 // C02/C04: the integer parsed from the stored string / field by the counter commands
 //@ ghost gParsed int64
 //@ ghost gParsedOK bool
+// C04: the option flags the hash table worker was last entered with
+//@ ghost gHashOptions bitflags
 // C10: the watched-key version (storeKey.id / absence) changed
 //@ ghost bumped bool
 //@ ghost removedKey bool
@@ -105,12 +107,6 @@ package redisemu
 //@ ensures !held && lockMode(dsc)
 
 // ---- keyspace dictionary (contracts assumed here; proved against the dict representation under C04)
-
-//@ func redisDict.pickRandomItems
-//@ trusted
-//@ pure
-//@ requires rd != nil
-//@ requires [C08,C16] locked: held
 
 //@ func redisDict.pickUniqueRandomItems
 //@ trusted
@@ -267,9 +263,8 @@ package redisemu
 //@ safetyprop C13
 //@ requires ds != nil && ds.data != nil && !ds.data.scratch && ds.data.keyspace && ds.data.owner == ds
 //@ requires [C08,C16] locked: held
-//@ modifies dataStore.dataObjectNumber storeKey redisDict redisDictItem alloc ghost.mutated ghost.bumped
+//@ modifies dataStore.dataObjectNumber storeKey ds.data->buckets ds.data->count ds.data->dirty ds.data->removals ds.data->vdom ds.data->vval redisDictItem alloc ghost.mutated ghost.bumped
 //@ ensures result != nil && result.flags == 0 && result.payload == nil && result.id == ds.dataObjectNumber
 //@ ensures otherdicts: forall r *redisDict :: r != ds.data ==> r.count == old(r.count)
-//@ use redisDict.store.others
 //@ ensures mut: mutated && bumped
 //@ ensures dirty: ds.data.dirty
